@@ -229,7 +229,7 @@ def cpp_validate_witness():
     for defaults in (real_defaults, synthetic):
         for std in list(defaults) + ["c++14", "none-such"]:
             for extra in ({}, {"g1": "user", "g2": "user", "g3": True, "g4": 7},
-                          {k: "user-value" for d in defaults.values() for k in d if k != "ctor_convention"}):
+                          {k: "user-value" for d in defaults.values() for k in d if k not in ("ctor_convention", "std")}):
                 n += 1
                 options = {"std": std, "ctor_convention": "default", "allocator_type": "a", **copy.deepcopy(extra)}
                 want = dict(options)
